@@ -9,11 +9,15 @@ def grid(shapes,bowls,opts,keeps,lags,patterns,truncs):
     return [{"shape":s,"bowl":b,"opt":o,"keep":k,"lag":l,"pattern":p,"trunc":t} for s in shapes for b in bowls for o in opts for k in keeps for l in lags for p in patterns for t in truncs]
 H.append({"name":"H_resume","tiers":Q,"scale":"b2","bounds":"B=2, MaxDataOp=3: two build pairs (insertion in a 9-byte file; copy + patched + brand-new files); fresh and overlay bowls; rsync series; every checkpoint index 0..7 offered with ShouldSave always true; interruption 0..2 checkpoints later; in-progress output cut back to every length >= the checkpointed offset (fresh bowl)",
   "param_sets":grid([0,1],[0,1],[0],range(0,8),[0,2],[ALWAYS],[1])})
+H.append({"name":"H_resume","tiers":Q,"scale":"b2","bounds":"a region of the old file that moves forward by exactly the size of the fresh bytes before it (new[n+x] == old[x]): two sizes, fresh and overlay bowls, checkpoints 0..5, lag 0",
+  "param_sets":grid([2,3],[0,1],[0],range(0,6),[0],[ALWAYS],[1])})
 H.append({"name":"H_resume","tiers":Q,"scale":"b2","bounds":"optimized patches (bsdiff series; concrete distinct contents), fresh and overlay bowls, checkpoints 0..4, lag 0..1",
   "param_sets":grid([10,11],[0,1],[1],range(0,5),[0,1],[ALWAYS],[0])})
+H.append({"name":"H_resume","tiers":Q,"scale":"b2","bounds":"chains of two interruptions: the run resumed from checkpoint keep is itself stopped at its keep2-th checkpoint and a third process finishes; rsync (symbolic) and bsdiff (concrete) series, fresh and overlay bowls",
+  "param_sets":[dict(x,keep2=k2) for x in grid([0,1],[0,1],[0],[0,2,4],[0,1],[ALWAYS],[0]) for k2 in (0,1,3)]+[dict(x,keep2=k2) for x in grid([10,11],[0,1],[1],[0,2],[0],[ALWAYS],[0]) for k2 in (0,2)]})
 H.append({"name":"H_resume","tiers":T,"scale":"b2","bounds":"all of the above with lag 0..4, sparse save schedules (patterns 0b0101.., 0b0011.., 0b1000..), optimized patches for both shapes","max_seconds":1500,
   "param_sets":grid([0,1],[0,1],[0],range(0,10),[0,1,2,4],[ALWAYS,0x55555555&0x3fffffff,0x33333333&0x3fffffff,0x8],[1])+grid([10,11],[0,1],[1],range(0,10),[0,1,2,4],[ALWAYS,0x55555555&0x3fffffff,0x8],[1])})
 json.dump({"property":"C03","package":"c03","scale":scale,"harnesses":H,
  "stubs":["os -> memfs, md5/protobuf models","encoding/gob -> deep copy of exported fields with the registered-type check","interruption = the consumer stops the patcher k+lag checkpoints in, then the in-progress output is truncated (the property's own interruption model)"],
- "outside":["gzip/brotli checkpoint formats (codecs not encodable)","chains of more than one interruption","power-loss reordering of writes","crashes inside Commit"]},open("config.json","w"),indent=1)
+ "outside":["gzip/brotli checkpoint formats (codecs not encodable)","chains of more than two interruptions","power-loss reordering of writes","crashes inside Commit"]},open("config.json","w"),indent=1)
 for h in H: print(h["name"],h["tiers"],h.get("scale"),len(h.get("param_sets",[1])))
